@@ -348,7 +348,7 @@ def discharge(obligations, timeout_s=60, jobs=None, seed=0, use_cvc5=True,
     rlimit = R1 if first_ms is None else max(200_000, int(first_ms * 4500))
   pending = []
   results = fork_map(len(obligations), lambda i: _solve(i, rlimit, seed, single), jobs=jobs,
-                     hard_s=3600)
+                     hard_s=900)
   for o, res in zip(obligations, results):
     o.backend = 'z3-%s' % z3.get_version_string()
     o.model, o.reason, o.rlimit = None, '', 0
